@@ -20,6 +20,9 @@ type model struct {
 	ctx  tree.ID
 	base []tree.ID // innermost predicate context (the step node being filtered)
 	reqs []Req
+	// named: the list entries the paths name (identity of every step that carries keys), whether or not a later step
+	// climbs out of them again
+	named map[string]bool
 }
 
 func cloneID(id tree.ID) tree.ID {
@@ -60,6 +63,15 @@ func (m *model) identity(p *xp.Path) (tree.ID, error) {
 		}
 		m.reqs = append(m.reqs, Req{"FollowLeafRef", inner.String()})
 		cur = tree.DefaultLeafRef(inner)
+		// (the path of the target, as the tree reports it, names its list entries)
+		for i, el := range cur {
+			if len(el.Keys) > 0 {
+				if m.named == nil {
+					m.named = map[string]bool{}
+				}
+				m.named[cur[:i+1].String()] = true
+			}
+		}
 	}
 	for _, s := range p.Steps {
 		switch s.Kind {
@@ -85,6 +97,12 @@ func (m *model) identity(p *xp.Path) (tree.ID, error) {
 				}
 			}
 			cur = append(cur, el)
+			if len(el.Keys) > 0 {
+				if m.named == nil {
+					m.named = map[string]bool{}
+				}
+				m.named[cur.String()] = true
+			}
 		}
 	}
 	return cur, nil
